@@ -74,6 +74,8 @@ class Program(object):
                     include_source.read_file()
                 except OSError as error:
                     raise TranslationError("[{}] cannot be included: {}".format(include_filename, error.strerror), statement)
+                except UnicodeDecodeError:
+                    raise TranslationError("[{}] cannot be included: not a text file".format(include_filename), statement)
                 include = cls.process_mnemonics(cls.parse(include_source.get_buffer()), including + (include_filename,))
                 processed_statements.extend(include)
             else:
